@@ -17,6 +17,18 @@ CHECKS = {
  "C06": dict(level="model_checking", technique="exhaustive symbolic path enumeration (symtrace/z3): all feasible completed paths of a program must yield one canonical constraint system",
              text="Bounded symbolic model checking: the engine forks at every value-dependent Python branch of the traced code, so the set of completed paths (errors on, ignore_errors on invalid inputs, guard 0/1, nested guards) is exhaustive within the bounds; all of them must produce the identical canonical trace (variable counts and order, constraints with coefficients mod p, result wire expressions). Two differing paths yield two concrete inputs that are replayed.",
              note="Trusted: path feasibility decided by z3 (unknown is never pruned), canonicalisation of linear combinations. Bounds: catalogue programs and depth-2 compositions, bitlength 4 (quick) / 4,8 (thorough).", ref="5/C06"),
+ "C02": dict(level="model_checking", technique="symbolic execution + SMT over the captured R1CS (symtrace/z3): operands fixed, all auxiliary wires universally quantified; query 'constraints hold and result differs' must be unsat",
+             text="Bounded symbolic soundness check: for every completed honest path of a value-returning catalogue operation the emitted constraint system is translated to integer arithmetic with exact mod-p congruences; operand wires keep their (symbolic) values, every other wire is a free field element of the adversarial prover; z3 must refute 'all constraints hold and some result wire differs from the honest value (or a boolean-typed result is not 0/1)'. Second witnesses are validated in exact arithmetic and replayed against the real constraints. Known unsound gadgets (unchecked quotient, &|^ with constants) are listed with region predicates.",
+             note="Trusted: z3, the integer encoding of field congruences, determinacy propagation (uses C01). Bounds: bitlength 4 / 4,8,16; operands < 2^64 / 2^120. Outside: << ** >> by a secret (solver does not finish).", ref="3, 5/C02"),
+ "C03": dict(level="model_checking", technique="symbolic execution + SMT over the captured R1CS: 'rejected at run time => constraints unsatisfiable for every witness' and 'accepted => relation true and witness satisfies'",
+             text="Bounded symbolic check of every assertion kind and boolean declaration: (a) on accepted paths the asserted relation holds and the recorded witness satisfies the constraints; (b) for every raising path the constraint structure emitted under ignore_errors, with all non-operand wires free, is refuted by z3 for all rejected operand values. Counterexamples are replayed (honest run raises, ignore_errors run's constraints satisfied by the adversarial witness).",
+             note="Trusted: z3, integer encoding; structure for rejected operands taken from the ignore_errors run (value independence is C06). Bounds: bitlength 4 / 4,8,16, widths 1,2,n-1,n,n+1, operands < 2^64 / 2^120.", ref="5/C03"),
+ "C07": dict(level="model_checking", technique="symbolic execution with a symbolic guard value (symtrace/z3): per-path SMT obligations for inertness under g=0 and equivalence with the unguarded run under g=1",
+             text="Bounded symbolic check of every catalogue operation inside runtime.guarded(g) (also nested twice) with g symbolic: under a false guard no raising path is feasible because of operand values and the recorded witness satisfies all constraints; under a true guard outcome classes and values equal those of the unguarded exploration (path-pair queries), results stay uniquely determined and rejected assertions stay unprovable. Genuine deviations (division by zero / non-boolean value raising under a false guard) are recorded with region predicates.",
+             note="Trusted: engine encoding, z3. Only runtime.guarded/add_guard regions (block API: C09). Bounds: bitlength 4 / 4,8, guard nesting 2, operands < 2^64 / 2^120.", ref="5/C07"),
+ "C08": dict(level="model_checking", technique="bounded exhaustive symbolic execution of enter/leave/abort histories of guarded regions with symbolic condition values (symtrace/z3)",
+             text="All region forests with up to 3 (quick) / 4 (thorough) regions, nesting 2 / 3, realised with runtime.guarded (normal exit and an exception at every statement position) and add_guard/restore_guard pairs, both initial error modes, are executed with symbolic condition values; on every feasible path the (guard, error-suppression, constant-one) triple after each region is identical to the one before, the guard value inside is the conjunction of the enclosing conditions and constants are multiples of the active guard.",
+             note="Trusted: engine path enumeration (z3 feasibility), object identity observed in-process. Outside: exceptions escaping block-API regions; the guard WIRE being the product is C02 (secret & secret).", ref="5/C08"),
 }
 NA_REASON = "check not built yet in this session (design in DESIGN.md section 5); will be claimed once its check exists"
 
